@@ -1,6 +1,6 @@
 """C11 WARP envelopes cross the socket unchanged and reach only their addressee."""
 from mirlib import AnchorMissing, describe_call, describe_operand, describe_place, describe_rvalue, dom_guards, guards, _suffix_match
-from rules.common import aggregates, callers_by_name, owner_def, panic_sites, where
+from rules.common import named_argument_rule, aggregates, callers_by_name, owner_def, panic_sites, where
 
 META = {
     "explanation": (
@@ -227,3 +227,6 @@ def run(ctx):
         fo2 = [c for c in gn.calls if c.name == "fetch_or"]
         r.check(len(fa) == 1 and describe_operand(gn, fa[0].args[1]) == "0", "get_next_stream/take-flags-atomically", where(gn), "bucket flags are taken with fetch_and(0) (nothing set concurrently is lost)")
         r.check(len(fo2) == 1 and "get_and_clear(" in describe_operand(gn, fo2[0].args[1]), "get_next_stream/requeue-flags-merged", where(gn), "queued flags are merged back with fetch_or(get_and_clear())")
+
+    with ctx.rule("C11.R6", "T5", "named arguments are passed in their parameters' positions (no two flags or ids change places at a call site)", floor=5) as r:
+        named_argument_rule(ctx, r, [("swimos_remote", "swimos_remote::")], allow={})
